@@ -276,7 +276,14 @@ func (e *integEngine) checkHookPattern(cs *CtxSpec, rr runRec) {
 			break
 		}
 	}
-	okPost := eq(post, block("after", cs.NAfter)) || (skipped && len(post) == 0)
+	wantPost := block("after", cs.NAfter)
+	for k := 0; k < cs.NAfter; k++ {
+		if planExit(e.w.Plan(execID(owner, "after", k, ""))) != 0 {
+			wantPost = wantPost[:k+1] // the hook stops at its first failing command
+			break
+		}
+	}
+	okPost := eq(post, wantPost) || (skipped && len(post) == 0)
 	if !okPost {
 		c.Violate("C14", "after-hook-count", "task %s in context %s: the context's after hook must run exactly once after the task (want %v), goroutine history: %s", rr.Task, cs.Name, block("after", cs.NAfter), trace)
 	}
